@@ -2,7 +2,7 @@
 import os
 import sys
 
-from .. import hir, rpair, rtable
+from .. import hir, paths, rpair, rtable
 from ..controls import fixture
 
 sys.path.insert(0, os.path.dirname(os.path.dirname(os.path.dirname(os.path.abspath(__file__)))))
@@ -88,6 +88,66 @@ def lift_rule(f):
     return d
 
 
+def argmin_rule(f):
+    """single_sln_set: the row whose solution set is used is an extractable row whenever one exists.
+    Recognised idiom: `let mut best = B; let mut idx = 0; for i in .. { if eligible(i) { let w = W(i); if w <op> best { idx = i; best = w } } }`.
+    With a finite initial bound B that a candidate can attain (here: row_ops.cols() vs row_ops.row_weight(i) <= cols) the comparison must be
+    non-strict, otherwise a candidate that attains the bound is never selected and the default index (possibly not a candidate) is used.
+    Returns [(slot, ok, msg)]."""
+    res = []
+    sel = None
+    pm = hir.parent_map(f['hir'])
+    for n in hir.nodes(f['hir']):
+        if n.get('k') == 'If' and not n.get('else'):
+            c = hir.strip(n['cond'])
+            if c.get('k') == 'Binary' and c['op'] in ('Lt', 'Le', 'Gt', 'Ge') and hir.local(c['l']) and hir.local(c['r']):
+                st = [hir.strip(x) for x in hir.stmts_of(n['then'])]
+                asg = {hir.local(x['l'])[1]: x for x in st if x.get('k') == 'Assign' and hir.local(x['l'])}
+                ids = {hir.local(c['l'])[1], hir.local(c['r'])[1]}
+                acc = [i for i in ids if i in asg]
+                if len(acc) == 1 and len(asg) == 2 and len(st) == 2:
+                    sel = (n, c, acc[0], asg)
+    if sel is None:
+        return [('shape', None, 'the smallest-solution-set selection (`if weight <= min_weight { row = i; min_weight = weight }`) was not found (not-established-by-recognised-idiom)')]
+    n, c, acc, asg = sel
+    w_id = (set([hir.local(c['l'])[1], hir.local(c['r'])[1]]) - {acc}).pop()
+    idx_id = (set(asg) - {acc}).pop()
+    # normalise to  w <op> acc
+    op = c['op'] if hir.local(c['l'])[1] == w_id else {'Lt': 'Gt', 'Le': 'Ge', 'Gt': 'Lt', 'Ge': 'Le'}[c['op']]
+    lets = {x['pat']['id']: x for x in hir.nodes(f['hir']) if x.get('k') == 'Let' and x['pat'].get('k') == 'Bind' and x.get('init') is not None}
+    acc_init = hir.strip(lets[acc]['init']) if acc in lets else None
+    w_init = hir.strip(lets[w_id]['init']) if w_id in lets else None
+    res.append(('updates-both', hir.local(asg[acc]['r']) and hir.local(asg[acc]['r'])[1] == w_id and bool(hir.local(asg[idx_id]['r'])), 'the selection must record both the new minimum and its row'))
+    sentinel = acc_init is not None and any(t in hir.pp(acc_init) for t in ('MAX', 'INFINITY', 'max_value'))
+    attainable = False
+    if acc_init is not None and w_init is not None and acc_init.get('k') == 'MethodCall' and acc_init['name'] in ('cols', 'num_cols') and w_init.get('k') == 'MethodCall' and w_init['name'] == 'row_weight':
+        attainable = hir.same_expr(acc_init['recv'], w_init['recv'])      # a row of X has weight at most X.cols(), and can attain it
+    if sentinel:
+        ok = op in ('Lt', 'Le')
+        why = ''
+    elif attainable:
+        ok = op == 'Le'
+        why = ('the running minimum starts at `%s`, which a row can attain, and the comparison is strict (`%s`): a candidate row whose weight equals the bound is never selected, the row index keeps its default `%s` '
+               '(which need not be an extractable row) and extraction fails with "No extractible vertex found"' % (hir.pp(acc_init)[:30], {'Lt': '<', 'Gt': '>', 'Ge': '>='}.get(op, op), hir.pp(lets[idx_id]['init'])[:10] if idx_id in lets else '?'))
+    else:
+        ok = None
+        why = 'the initial value of the running minimum (`%s`) is neither a MAX sentinel nor the column count of the matrix whose row weights are compared (not-established-by-recognised-idiom)' % (hir.pp(acc_init)[:40] if acc_init is not None else '?')
+    res.append(('first-candidate-is-selected', ok, why))
+    # the selection is made among eligible rows only (dominated by the row_weight(i) == 1 test on the reduced matrix)
+    elig = False
+    for d in paths.dominating_conds(n, pm):
+        if d[0] == 'cond' and d[2]:
+            e = hir.strip(d[1])
+            if e.get('k') == 'Binary' and e['op'] == 'Eq' and hir.lit_int(hir.strip(e['r'])) == 1 and hir.strip(e['l']).get('k') == 'MethodCall' and hir.strip(e['l'])['name'] == 'row_weight':
+                elig = True
+    res.append(('among-extractable-rows', elig, 'only rows of the reduced matrix with a single 1 (extractable vertices) may be selected'))
+    # the selected row is the one whose support becomes the solution set
+    used = [x for x in hir.nodes(f['hir']) if x.get('k') == 'Index' and hir.strip(x['i']).get('k') == 'Tup' and hir.local(hir.strip(x['i'])['items'][0]) and hir.local(hir.strip(x['i'])['items'][0])[1] == idx_id]
+    same_m = bool(used) and w_init is not None and hir.same_expr(used[0]['e'], w_init['recv'])
+    res.append(('solution-set-of-selected-row', same_m, 'the solution set must be the support of the selected row in the same row-operation matrix whose weights were compared'))
+    return res
+
+
 def _run_own(ck):
     facts = ck.facts
     ck.decided('D1 gate set: every gate constructed in code reachable from Extractor::extract (including the RowOps-for-Circuit callbacks) has a constant kind in {H, ZPhase, CZ, CNOT, SWAP} — this clause of the statement is decided completely',
@@ -119,6 +179,11 @@ def _run_own(ck):
     for i, (ok, node, why) in enumerate(mp):
         ck.ob('R-PAIR-mirror', sk + '/add_row-%d' % i, ok, ck.site(sk, node), why)
     ck.floor('R-PAIR-mirror', len(mp), 1)
+    for slot, ok, msg in argmin_rule(ck.fn(sk)):
+        if ok is None:
+            ck.violation('R-ARGMIN', sk + '/' + slot, ck.site(sk), msg)
+        else:
+            ck.ob('R-ARGMIN', sk + '/' + slot, ok, ck.site(sk), msg)
     ub = [c for c in hir.calls(f['hir']) if c.get('k') == 'MethodCall' and c['name'] == 'update_frontier_biadj']
     ck.ob('R-PAIR-mirror', sk + '/writes-back-same-matrix', len(ub) == 1 and hir.local_name(ub[0]['args'][1]) == 'm' and hir.local_name(ub[0]['args'][0]) == 'neighbors', ck.site(sk),
           'the matrix written back to the graph must be the one the mirrored row operations were applied to (m), with the neighbour list it was built from')
@@ -240,8 +305,9 @@ def _run_own(ck):
     fx = fixture()
     em2, _r = emitted(fx, ['extract::emit_bad'])
     ck.control('R-EMIT flags a gate outside the basic set', any(k not in G.EXTRACT_SET for _f, k, _n in em2))
+    ck.control('R-ARGMIN flags a strict comparison against an attainable bound', any(ok is False for _s, ok, _m in argmin_rule(fixture()['fns']['extract::single_sln_set'])))
 
 
 def run(ck, **kw):
     _run_own(ck)
-    ck.include('C01', 'the optimiser simplifies the diagram before extracting: an unsound rule application or inline matcher in simplify.rs yields a circuit for a different unitary', parts=['D1', 'D2'])
+    ck.include('C02', 'the optimiser first translates the circuit into a diagram (circuit.rs / gate.rs are anchored here too) and then simplifies it: a wrong translation or an unsound rule application in simplify.rs yields a circuit for a different unitary')
